@@ -20,7 +20,7 @@ class C16:
     coq_timeout = 1500
     model_targets = ["Pack.vo", "Corr/C16.vo"]
     proof_target = "Props/C16.vo"
-    theorems = ["C16_total", "C16_complete", "C16_strict_iff", "C16_sound_partial", "C16_refuted_unterminated"]
+    theorems = ["C16_total", "C16_complete", "C16_strict_iff", "C16_sound_partial", "C16_refuted_unterminated", "C16_every_depth_accepted"]
     allowed_axioms = []
     coq_header = "From Rdest Require Import Base BCodec BGrammar Corr.C16.\nOpen Scope N_scope.\n"
     corr_name = "BDecoder::from_array vs BCodec.decode"
@@ -31,7 +31,7 @@ class C16:
             "own inputs and boundary numerals as corpus; (c) valid documents (canonical and non-canonical spellings) and "
             "their mutations/truncations. Non-trivial: every case; distinct = distinct input lines.")
     statement_status = "partial: soundness holds outside the known-finding class(es); see C16_sound_partial / C16_refuted_*"
-    assumptions = ["native stack exhaustion on pathologically deep nesting is not modelled"]
+    assumptions = ["the model decoder has no native stack; the implementation's stack use is checked by the deep-nesting part"]
     exhaustive = True
 
     def corpus(self):
@@ -102,4 +102,51 @@ class C16:
         return out
 
 
+class C16Deep:
+    """well-formed documents nested n levels deep, each decoded in a process of its own: the grammar (and the model
+    decoder: DeepProofs.nested_accepted) accepts every depth; the recursive implementation must accept, and must not die"""
+    id = "C16"
+    harness_sub = "bc"
+    harness_isolate = True
+    harness_timeout = 600
+    coq_timeout = 300
+    allowed_axioms = []
+    model_targets = ["Pack.vo", "Corr/Deep.vo"]
+    corr_name = "BDecoder::from_array on deeply nested documents (one process per case)"
+    coq_header = "From Rdest Require Import Base Corr.Deep.\nOpen Scope N_scope.\nDefinition codes := codes.\n"
+    classes = {2: "stack-exhaustion-on-deep-nesting"}
+    rule = ""
+    assumptions = []
+
+    def mk(self, depth, shape):
+        if shape == "list":
+            doc = b"l" * depth + b"e" * depth
+        elif shape == "dict":
+            doc = b"d1:a" * depth + b"le" + b"e" * depth
+        else:   # alternating
+            doc = b"ld1:a" * (depth // 2) + b"le" + b"ee" * (depth // 2)
+        return Case("dec %s" % doc.hex(), "deep-%s" % shape, {"depth": depth, "shape": shape})
+
+    def coq_case(self, c, out):
+        out = out.strip()
+        outcome = 2 if out == "CRASH" else (0 if out.startswith("OK") else 1)
+        return "CDeep %d %d" % (c.info["depth"], outcome)
+
+    def model_term(self, c):
+        return "(%s)" % c.term
+
+    def corpus(self):
+        # 400000 levels: the witness of the known finding (the process dies: native stack exhausted)
+        return [self.mk(10, "list"), self.mk(300, "dict"), self.mk(900, "list"), self.mk(400000, "list")]
+
+    def gen(self, rng, tier):
+        k = {"quick": 12, "thorough": 60, "search": 30}.get(tier, 12)
+        cases = []
+        for _ in range(k):
+            depth = rng.choice([1, 2, 17, 100, 500, 999, 2000, 5000, 20000, 100000])
+            cases.append(self.mk(depth, rng.choice(["list", "dict", "alt"])))
+        return cases
+
+
 PROP = C16()
+PROP.parts = [PROP, C16Deep()]
